@@ -216,7 +216,14 @@ impl Shared {
                     std::hint::spin_loop();
                 }
             }
-            _ => std::thread::sleep(std::time::Duration::from_micros(h % 200)),
+            3 => std::thread::sleep(std::time::Duration::from_micros(h % 200)),
+            // a child maker that itself uses the pool it runs on (parallel scoring inside the
+            // operator): it gives the worker back to rayon and forks a nested job
+            _ => {
+                let _ = rayon::yield_now();
+                let (a, b) = rayon::join(|| std::hint::black_box(h % 7), || std::hint::black_box(h % 11));
+                std::hint::black_box(a + b);
+            }
         }
     }
 
@@ -465,6 +472,63 @@ fn initial(size: usize, first: u64) -> Vec<Child> {
     (0..size as u64).map(|i| Child { serial: first + i, w1: mix(first, i), w2: mix(i, first) }).collect()
 }
 
+/// Stall detector. A generation step is pure computation: while one is in progress the process
+/// burns CPU. If no step started or finished for `STALL_WALL_S` seconds *and* the whole process
+/// consumed practically no CPU time in that window, every thread is blocked - the step can never
+/// return (for instance a lock held across a call that re-enters the pool). Reported as
+/// `C09/<mode>/stalled`. The criterion is "no CPU consumed", which load on the machine cannot
+/// produce: a runnable thread on a loaded machine still gets *some* CPU in two minutes.
+pub static STEP_EVENTS: std::sync::atomic::AtomicU64 = std::sync::atomic::AtomicU64::new(0);
+pub static STEP_IN_PROGRESS: Mutex<BTreeMap<u64, String>> = Mutex::new(BTreeMap::new());
+pub const STALL_WALL_S: u64 = 120;
+
+fn process_cpu_seconds() -> f64 {
+    // SAFETY: clock_gettime with a valid out-pointer
+    unsafe {
+        let mut ts = libc::timespec { tv_sec: 0, tv_nsec: 0 };
+        libc::clock_gettime(libc::CLOCK_PROCESS_CPUTIME_ID, &mut ts);
+        ts.tv_sec as f64 + ts.tv_nsec as f64 * 1e-9
+    }
+}
+
+pub fn start_stall_detector(root: std::path::PathBuf) {
+    static ONCE: std::sync::Once = std::sync::Once::new();
+    ONCE.call_once(|| {
+        let _ = std::thread::Builder::new().name("stall-detector".into()).spawn(move || {
+            let mut last_events = STEP_EVENTS.load(Ordering::SeqCst);
+            let mut window_start = std::time::Instant::now();
+            let mut cpu_at_start = process_cpu_seconds();
+            loop {
+                std::thread::sleep(std::time::Duration::from_secs(2));
+                let ev = STEP_EVENTS.load(Ordering::SeqCst);
+                let what: Option<String> = STEP_IN_PROGRESS.lock().unwrap_or_else(|e| e.into_inner()).values().next().cloned();
+                if ev != last_events || what.is_none() {
+                    last_events = ev;
+                    window_start = std::time::Instant::now();
+                    cpu_at_start = process_cpu_seconds();
+                    continue;
+                }
+                let cpu = process_cpu_seconds() - cpu_at_start;
+                if window_start.elapsed().as_secs() >= STALL_WALL_S && cpu < 1.0 {
+                    let what = what.unwrap_or_default();
+                    let mode = if what.contains("par_next") { "par_next" } else { "serial_next" };
+                    let dir = root.join("replays");
+                    let _ = std::fs::create_dir_all(&dir);
+                    let path = dir.join("C09-stalled.json");
+                    let doc = vh_core::json!({"property": "C09", "signature": format!("C09/{mode}/stalled"), "step_in_progress": what,
+                        "seconds_without_a_step_starting_or_finishing": window_start.elapsed().as_secs(), "cpu_seconds_consumed_by_the_whole_process_meanwhile": cpu,
+                        "meaning": "every thread of the process is blocked while a generation step is in progress: the step can never return"});
+                    let _ = std::fs::write(&path, serde_json::to_string_pretty(&doc).unwrap_or_default());
+                    println!("VIOLATION property=C09 replay={} signature=C09/{mode}/stalled occurrences=1", path.display());
+                    use std::io::Write;
+                    let _ = std::io::stdout().flush();
+                    std::process::exit(1);
+                }
+            }
+        });
+    });
+}
+
 pub fn run_cfg(cfg: &Cfg, seed: u64) -> CfgOutcome {
     let mut out = CfgOutcome::default();
     let probe = Probe::new(1_000_000, cfg.delay_mode, seed);
@@ -503,7 +567,12 @@ where
         probe.reset_step(injected.clone());
         let first_serial = probe.serials.load(Ordering::SeqCst);
         // a panicking step is a violation in itself (the statement allows an error, not a panic)
+        let me = TID.with(|t| *t);
+        STEP_IN_PROGRESS.lock().unwrap_or_else(|e| e.into_inner()).insert(me, format!("{} step {step} of {cfg:?}", if cfg.parallel { "par_next" } else { "serial_next" }));
+        STEP_EVENTS.fetch_add(1, Ordering::SeqCst);
         let stepped = std::panic::catch_unwind(std::panic::AssertUnwindSafe(|| if cfg.parallel { generation.par_next() } else { generation.serial_next() }));
+        STEP_EVENTS.fetch_add(1, Ordering::SeqCst);
+        STEP_IN_PROGRESS.lock().unwrap_or_else(|e| e.into_inner()).remove(&me);
         let result = match stepped {
             Ok(r) => r,
             Err(p) => {
